@@ -437,6 +437,11 @@ func (r *Report) NumViolations() int { return len(r.violations) }
 func (r *Report) Finish() int {
 	os.MkdirAll(filepath.Join(verifDir, "evidence"), 0o755)
 	os.MkdirAll(filepath.Join(verifDir, "replay"), 0o755)
+	if old, _ := filepath.Glob(filepath.Join(verifDir, "replay", r.Prop+"-*.json")); r.Tier != "replay" {
+		for _, f := range old {
+			os.Remove(f)
+		}
+	}
 	rules := make([]string, 0, len(r.known))
 	for k := range r.known {
 		rules = append(rules, k)
